@@ -402,7 +402,11 @@ type c18Node struct {
 	closed  bool // client closed
 	crashed bool
 	shut    bool // ReleaseAll was called on this instance
-	lastRev int64
+	// superseded: the broker was restarted (a new manager with the same broker id runs) while this
+	// incarnation is still winding down: it starts no new Acquire, but its Release/ReleaseAll calls, its
+	// parked etcd requests, its session and its client keep working until closed / expired
+	superseded bool
+	lastRev    int64
 }
 
 func (n *c18Node) name() string {
@@ -466,6 +470,7 @@ type c18World struct {
 	mu      sync.Mutex
 	nodes   []*c18Node
 	gone    []*c18Node
+	linger  []*c18Node // superseded incarnations that are still running, oldest first
 	probe   *c18Node
 	pending []*c18Gate
 	actors  []*c18Actor
@@ -489,6 +494,7 @@ type c18World struct {
 	nRevWait                                                     int
 	curEligible                                                  bool
 	nBatch, nDelayed                                             int
+	nRespawn, nOldOps, takeovers, oldOpsAfterTakeover            int
 	mode                                                         string
 }
 
@@ -939,6 +945,12 @@ func (w *c18World) startOp(n *c18Node, kind string, res int) bool {
 	if kind == "release" || kind == "release_all" {
 		w.nRelease++
 	}
+	if n.superseded {
+		w.nOldOps++
+		if w.takeovers > 0 {
+			w.oldOpsAfterTakeover++
+		}
+	}
 	go func() {
 		var err error
 		defer func() {
@@ -1066,6 +1078,54 @@ func (w *c18World) restart(idx int) bool {
 	return w.after(c18Step{Kind: "restart", Node: nn.name(), Desc: "old instance " + old.name() + " is gone; new manager, same broker id"}, nn)
 }
 
+// acquiring: Acquire calls of n that have not returned yet.
+func (w *c18World) acquiring(n *c18Node) int {
+	w.mu.Lock()
+	defer w.mu.Unlock()
+	c := 0
+	for _, a := range w.actors {
+		if a.node == n && !a.done && a.kind == "acquire" {
+			c++
+		}
+	}
+	return c
+}
+
+// respawn: the broker is restarted while its old process is still winding down. A new manager with the same
+// broker id starts on a new client (own etcd session); the old incarnation stays alive: what it has parked
+// still executes, it may still call Release / ReleaseAll, close its client, and its lease lives on until it
+// is revoked or expires. From here on the NEW incarnation is "the broker": the old one's Owns() is audited
+// only for claims that no later incarnation has taken over (see claimOwn). The caller makes sure the old
+// incarnation has no Acquire in flight (an incarnation that is winding down does not take leases).
+func (w *c18World) respawn(idx int) bool {
+	old := w.nodes[idx]
+	w.mu.Lock()
+	old.superseded = true
+	w.mu.Unlock()
+	w.linger = append(w.linger, old)
+	nn := w.newNode(idx, old.inst+1, false)
+	w.nodes[idx] = nn
+	w.nRestart++
+	w.nRespawn++
+	t := int64(len(w.steps)+1) * 10
+	w.lockEvs = append(w.lockEvs, c18LEv{res: -1, in: c18LIn{Kind: "gone", Node: old.name()}, call: t + 1, ret: t + 4})
+	return w.after(c18Step{Kind: "respawn", Node: nn.name(), Desc: "new manager, same broker id; old incarnation " + old.name() + " keeps running (winding down: no new Acquire)"}, nn)
+}
+
+// claimOwn: the latest PUT on res that carries n's broker id was made under a lease of THIS incarnation, i.e. no
+// other incarnation of the same broker id has re-attached the key since.
+func (n *c18Node) claimOwn(res int) bool {
+	w := n.w
+	l, ok := w.lastPut[res][n.id]
+	if !ok {
+		return false
+	}
+	w.mu.Lock()
+	defer w.mu.Unlock()
+	ls := w.byID[clientv3.LeaseID(l)]
+	return ls != nil && ls.owner == n
+}
+
 func (w *c18World) closeClient(n *c18Node) bool {
 	w.mu.Lock()
 	n.closed = true
@@ -1186,6 +1246,14 @@ func (w *c18World) afterCause(st c18Step, by *c18Node, cause string) bool {
 				w.lastPut[res] = map[string]int64{}
 				w.putters[res] = map[string]bool{}
 			}
+			if pl, ok := w.lastPut[res][ev.Value]; ok && ev.HasPrev && ev.PrevValue == ev.Value {
+				w.mu.Lock()
+				a, b := w.byID[clientv3.LeaseID(pl)], w.byID[clientv3.LeaseID(ev.Lease)]
+				if a != nil && b != nil && a.owner != b.owner {
+					w.takeovers++ // the key went from one incarnation of a broker id to another one
+				}
+				w.mu.Unlock()
+			}
 			w.lastPut[res][ev.Value] = ev.Lease
 			if !w.putters[res][ev.Value] {
 				w.putters[res][ev.Value] = true
@@ -1227,6 +1295,21 @@ func (w *c18World) afterCause(st c18Step, by *c18Node, cause string) bool {
 					x += "(session expired, not yet noticed)"
 				}
 				names = append(names, x)
+			}
+		}
+		for _, n := range w.linger {
+			if n.crashed || !n.mgr.Owns(res) {
+				continue
+			}
+			if n.claimOwn(res) {
+				believers[res] = append(believers[res], n)
+				x := n.name() + "(old incarnation)"
+				if n.excusable(res) {
+					x += "(session expired, not yet noticed)"
+				}
+				names = append(names, x)
+			} else {
+				names = append(names, n.name()+"(old incarnation; its key was taken over by a newer incarnation: not audited)")
 			}
 		}
 		if w.probe != nil && w.probe.mgr.Owns(res) {
@@ -1293,15 +1376,23 @@ func (w *c18World) afterCause(st c18Step, by *c18Node, cause string) bool {
 		if len(believers[res]) >= 2 && len(firm) < len(believers[res]) {
 			w.staleWindows++
 		}
-		if len(firm) >= 2 {
+		// two incarnations of ONE broker id are one broker (a restarted broker re-attaches its own key by design)
+		var other *c18Node
+		for _, n := range firm {
+			if n.id != firm[0].id {
+				other = n
+				break
+			}
+		}
+		if other != nil {
 			w.violated = true
 			w.r.Violation("dual_ownership", fmt.Sprintf("[%s] after step %d brokers %s and %s both own r%d and neither has an expired session",
-				w.flavour, st.N, firm[0].name(), firm[1].name(), res), w.witness())
+				w.flavour, st.N, firm[0].name(), other.name(), res), w.witness())
 			return false
 		}
 		// a firm believer whose key is absent from etcd: any other broker may acquire now. Extend the
 		// schedule by exactly that (a further broker P acquires) to exhibit the two owners.
-		if len(firm) == 1 && firm[0] != w.probe {
+		if len(firm) >= 1 && firm[0] != w.probe {
 			if _, present := w.shadow[res]; !present {
 				if !w.probeAcquire(res, firm[0], st.N) {
 					return false
@@ -1659,6 +1750,7 @@ func (w *c18World) cleanup() {
 		}
 	}
 	all := append(append([]*c18Node(nil), w.nodes...), w.gone...)
+	all = append(all, w.linger...)
 	if w.probe != nil {
 		all = append(all, w.probe)
 	}
@@ -1696,6 +1788,8 @@ func (w *c18World) finishCase(name string, sample bool) {
 		r.Inconclusive(fmt.Sprintf("case %s: %s", name, w.trouble))
 	}
 	nontrivial := w.handovers > 0 && (w.nExpire+w.nRelease+w.nRestart+w.nClose) > 0
+	// ... or a key went from one incarnation of a broker id to the next and the old incarnation acted afterwards
+	nontrivial = nontrivial || (w.takeovers > 0 && w.oldOpsAfterTakeover > 0)
 	r.Case(w.signature(), nontrivial)
 	r.Seen("schedules", w.signature())
 	r.Count("steps", int64(len(w.steps)))
@@ -1704,6 +1798,12 @@ func (w *c18World) finishCase(name string, sample bool) {
 	r.Count("notice_steps", int64(w.nNotice))
 	r.Count("release_ops", int64(w.nRelease))
 	r.Count("restarts", int64(w.nRestart))
+	r.Count("restarts_with_old_incarnation_still_running", int64(w.nRespawn))
+	r.Count("calls_by_superseded_incarnation", int64(w.nOldOps))
+	r.Count("key_takeovers_between_incarnations", int64(w.takeovers))
+	if w.takeovers > 0 && w.oldOpsAfterTakeover > 0 {
+		r.Count("cases_old_incarnation_acts_after_takeover", 1)
+	}
 	r.Count("client_closes", int64(w.nClose))
 	r.Count("injected_etcd_faults", int64(w.nFault))
 	r.Count("reacquire_txns", int64(w.nReacq))
@@ -1736,19 +1836,42 @@ type c18Driver struct{ w *c18World }
 
 func (s *c18Driver) node(i int) *c18Node { return s.w.nodes[i] }
 
-func (s *c18Driver) start(i int, kind string, res int) { // start an op; it runs until its first etcd request
+// old returns the k-th (0 = oldest) superseded, still running incarnation of broker i.
+func (s *c18Driver) old(i, k int) *c18Node {
+	for _, n := range s.w.linger {
+		if n.idx == i {
+			if k == 0 {
+				return n
+			}
+			k--
+		}
+	}
 	if s.w.ok() {
-		s.w.startOp(s.node(i), kind, res)
+		s.w.trouble = fmt.Sprintf("script error: broker %d has no such superseded incarnation", i)
+	}
+	return s.w.nodes[i]
+}
+
+func (s *c18Driver) start(i int, kind string, res int) { s.startN(s.node(i), kind, res) }
+
+func (s *c18Driver) startN(n *c18Node, kind string, res int) { // start an op; it runs until its first etcd request
+	if s.w.ok() {
+		s.w.startOp(n, kind, res)
 	}
 }
 
 // next releases the first pending etcd request of broker i whose kind matches (""=any).
 func (s *c18Driver) next(i int, kind string, outcome int) bool {
+	return s.nextWhere(s.node(i), func(g *c18Gate) bool { return kind == "" || g.kind == kind }, outcome)
+}
+
+// nextWhere releases the first pending etcd request of incarnation n that satisfies pred.
+func (s *c18Driver) nextWhere(n *c18Node, pred func(*c18Gate) bool, outcome int) bool {
 	if !s.w.ok() {
 		return false
 	}
-	for _, g := range s.w.pendingOf(s.node(i)) {
-		if kind == "" || g.kind == kind {
+	for _, g := range s.w.pendingOf(n) {
+		if pred(g) {
 			s.w.releaseGate(g, outcome)
 			return true
 		}
@@ -1757,15 +1880,50 @@ func (s *c18Driver) next(i int, kind string, outcome int) bool {
 }
 
 // finish lets everything broker i has pending run to completion.
-func (s *c18Driver) finish(i int) {
+func (s *c18Driver) finish(i int) { s.finishN(s.node(i)) }
+
+func (s *c18Driver) finishN(n *c18Node) {
 	for k := 0; k < 50 && s.w.ok(); k++ {
-		if !s.next(i, "", c18OK) {
+		if !s.nextWhere(n, func(*c18Gate) bool { return true }, c18OK) {
 			return
 		}
 	}
 }
 
 func (s *c18Driver) do(i int, kind string, res int) { s.start(i, kind, res); s.finish(i) }
+
+func (s *c18Driver) doN(n *c18Node, kind string, res int) { s.startN(n, kind, res); s.finishN(n) }
+
+// c18NotDeleting: a request of an Acquire (the create-if-absent txn, the value-compare re-attach txn), as opposed to
+// the deleting request of a Release
+func c18NotDeleting(g *c18Gate) bool { return g.kind == "txn" && !g.deletes }
+
+func (s *c18Driver) respawn(i int) {
+	if s.w.ok() {
+		if s.w.acquiring(s.node(i)) > 0 {
+			s.w.trouble = "script error: respawn with an Acquire of the old incarnation in flight"
+			return
+		}
+		s.w.respawn(i)
+	}
+}
+
+// expireOf / noticeOf: the leases of ONE incarnation
+func (s *c18Driver) expireOf(n *c18Node) {
+	for _, ls := range s.leasesOf(n.idx, func(l *c18Lease) bool { return l.owner == n && !l.serverDead }) {
+		if s.w.ok() {
+			s.w.expire(ls)
+		}
+	}
+}
+
+func (s *c18Driver) noticeOf(n *c18Node) {
+	for _, ls := range s.leasesOf(n.idx, func(l *c18Lease) bool { return l.owner == n && l.hasKA && !l.noticed }) {
+		if s.w.ok() {
+			s.w.notice(ls)
+		}
+	}
+}
 
 func (s *c18Driver) leasesOf(i int, pred func(*c18Lease) bool) []*c18Lease {
 	var out []*c18Lease
@@ -1848,7 +2006,23 @@ var c18Scripts = []c18Script{
 		s.do(cA, "acquire", 0)
 		s.start(cA, "release", 0)
 		s.start(cA, "acquire", 0)
-		for s.next(cA, "txn", c18OK) {
+		for s.nextWhere(s.node(cA), c18NotDeleting, c18OK) { // the Acquire's txns first, whatever request the Release uses
+		}
+		s.finish(cA)
+		s.do(cB, "acquire", 0)
+		s.do(cA, "release", 0)
+		s.do(cB, "acquire", 0)
+	}},
+	{"release_races_own_acquire_under_new_session", func(s *c18Driver) {
+		// the same race across a session rotation: the session expires, Release(r0) is parked before its etcd request,
+		// the loss is noticed, Acquire(r0) creates the key afresh under a new session, then the Release's request lands
+		s.do(cA, "acquire", 0)
+		s.expire(cA)
+		s.start(cA, "release", 0)
+		s.notice(cA)
+		s.start(cA, "acquire", 0)
+		s.next(cA, "grant", c18OK)
+		for s.nextWhere(s.node(cA), c18NotDeleting, c18OK) {
 		}
 		s.finish(cA)
 		s.do(cB, "acquire", 0)
@@ -2028,6 +2202,115 @@ var c18Scripts = []c18Script{
 		s.do(cB, "acquire", 1)
 		s.do(cB, "acquire", 0)
 	}},
+	// ---- restarts whose old incarnation is still running (several managers / etcd sessions of one broker id overlap)
+	{"old_incarnation_releases_after_new_one_took_over", func(s *c18Driver) {
+		s.do(cA, "acquire", 0)
+		s.respawn(cA)
+		s.do(cB, "acquire", 0) // the old incarnation's key is still there: must fail
+		s.do(cA, "acquire", 0) // new incarnation re-attaches its own broker's key to its session
+		s.doN(s.old(cA, 0), "release", 0)
+		s.do(cB, "acquire", 0)
+		s.do(cA, "release", 0)
+		s.do(cB, "acquire", 0)
+	}},
+	{"old_incarnation_release_in_flight_across_restart", func(s *c18Driver) {
+		s.do(cA, "acquire", 0)
+		s.start(cA, "release", 0) // local ownership dropped, etcd request parked
+		s.respawn(cA)
+		s.do(cA, "acquire", 0)
+		s.finishN(s.old(cA, 0)) // the old incarnation's request lands now
+		s.do(cB, "acquire", 0)
+		s.expireOf(s.old(cA, 0))
+		s.do(cB, "acquire", 0)
+	}},
+	{"old_incarnation_release_all_after_partial_takeover", func(s *c18Driver) {
+		s.do(cA, "acquire", 0)
+		s.do(cA, "acquire", 1)
+		s.respawn(cA)
+		s.do(cA, "acquire", 0)                // r0 moves to the new session, r1 stays on the old one
+		s.doN(s.old(cA, 0), "release_all", 0) // closes the old session: r1 goes, r0 must stay
+		s.do(cB, "acquire", 0)
+		s.do(cB, "acquire", 1)
+		s.do(cA, "acquire", 1)
+	}},
+	{"old_incarnation_closes_late_then_its_lease_expires", func(s *c18Driver) {
+		s.do(cA, "acquire", 0)
+		s.do(cA, "acquire", 1)
+		s.respawn(cA)
+		s.do(cA, "acquire", 1)
+		if s.w.ok() {
+			s.w.closeClient(s.old(cA, 0))
+		}
+		s.do(cB, "acquire", 1)
+		s.expireOf(s.old(cA, 0)) // r0 expires with the old session, r1 lives on
+		s.do(cB, "acquire", 1)
+		s.do(cB, "acquire", 0)
+		s.do(cA, "acquire", 0)
+	}},
+	{"three_incarnations_release_out_of_order", func(s *c18Driver) {
+		s.do(cA, "acquire", 0)
+		s.respawn(cA)
+		s.do(cA, "acquire", 0)
+		s.respawn(cA)
+		s.do(cA, "acquire", 0)
+		s.doN(s.old(cA, 1), "release", 0)
+		s.do(cB, "acquire", 0)
+		s.doN(s.old(cA, 0), "release", 0)
+		s.do(cB, "acquire", 0)
+		s.doN(s.old(cA, 1), "release_all", 0)
+		s.expireOf(s.old(cA, 0))
+		s.do(cB, "acquire", 0)
+		s.do(cA, "release", 0)
+		s.do(cB, "acquire", 0)
+	}},
+	{"old_incarnation_releases_between_the_new_ones_two_txns", func(s *c18Driver) {
+		s.do(cA, "acquire", 0)
+		s.respawn(cA)
+		s.start(cA, "acquire", 0)
+		s.next(cA, "grant", c18OK)
+		s.next(cA, "txn", c18OK)          // create-if-absent fails: the key names A
+		s.doN(s.old(cA, 0), "release", 0) // the old incarnation's own key: goes
+		s.do(cB, "acquire", 0)
+		s.finish(cA) // the re-attach txn must fail
+		s.do(cB, "release", 0)
+		s.do(cA, "acquire", 0)
+	}},
+	{"old_incarnation_releases_after_new_one_released_and_other_broker_acquired", func(s *c18Driver) {
+		s.do(cA, "acquire", 0)
+		s.respawn(cA)
+		s.do(cA, "acquire", 0)
+		s.do(cA, "release", 0)
+		s.do(cB, "acquire", 0)
+		s.doN(s.old(cA, 0), "release", 0) // still believes; the key is B's now
+		s.do(cC, "acquire", 0)
+		s.doN(s.old(cA, 0), "release_all", 0)
+		s.do(cC, "acquire", 0)
+	}},
+	{"old_incarnation_release_response_held_while_new_one_takes_over", func(s *c18Driver) {
+		s.do(cA, "acquire", 0)
+		s.do(cA, "acquire", 1)
+		s.start(cA, "release", 1)
+		s.next(cA, "", c18OKDelayed) // r1 deleted, response on its way
+		s.respawn(cA)
+		s.do(cA, "acquire", 1) // fresh create under the new session
+		s.do(cA, "acquire", 0) // re-attach
+		s.finishN(s.old(cA, 0))
+		s.doN(s.old(cA, 0), "release", 1)
+		s.doN(s.old(cA, 0), "release", 0)
+		s.do(cB, "acquire", 0)
+		s.do(cB, "acquire", 1)
+	}},
+	{"new_incarnation_takes_over_then_its_session_expires_old_one_releases", func(s *c18Driver) {
+		s.do(cA, "acquire", 0)
+		s.respawn(cA)
+		s.do(cA, "acquire", 0)
+		s.expireOf(s.node(cA)) // the key goes with the new session; the new incarnation is not told yet
+		s.do(cB, "acquire", 0)
+		s.doN(s.old(cA, 0), "release", 0) // B's key must stay
+		s.do(cC, "acquire", 0)
+		s.noticeOf(s.node(cA))
+		s.do(cA, "acquire", 0)
+	}},
 }
 
 // c18RacyScripts end in a step whose outcome depends on which woken goroutine reaches the manager's
@@ -2069,6 +2352,13 @@ func (w *c18World) sample(rng interface {
 	opsLeft := 7 + rng.Intn(8)
 	maxSteps := 70
 	restartsLeft, closesLeft := 2, 1
+	// one case in three dwells on restarts whose old incarnation keeps running for a while
+	respawnW, expireW := 0.02, 0.45
+	if rng.Intn(3) == 0 {
+		respawnW, restartsLeft = 0.8, 3
+		expireW = 0.12 // fewer expiries, so that keys live long enough to be handed from incarnation to incarnation
+		opsLeft += 4
+	}
 	type choice struct {
 		wgt float64
 		run func()
@@ -2088,10 +2378,24 @@ func (w *c18World) sample(rng interface {
 				continue
 			}
 			if restartsLeft > 0 {
-				if n.shut {
+				canLinger := w.acquiring(n) == 0
+				switch {
+				case n.shut && canLinger:
+					add(0.3, func() { restartsLeft--; w.restart(n.idx) })
+					add(0.3, func() { restartsLeft--; w.respawn(n.idx) }) // ReleaseAll still closing its session
+				case n.shut:
 					add(0.6, func() { restartsLeft--; w.restart(n.idx) })
-				} else {
+				default:
 					add(0.02, func() { restartsLeft--; w.restart(n.idx) })
+					if canLinger {
+						wgt := respawnW / 8
+						for k := 0; k < w.nres; k++ {
+							if n.mgr.Owns(k) { // a restart that leaves something to take over
+								wgt = respawnW
+							}
+						}
+						add(wgt, func() { restartsLeft--; w.respawn(n.idx) })
+					}
 				}
 			}
 			if closesLeft > 0 && !n.shut {
@@ -2102,11 +2406,25 @@ func (w *c18World) sample(rng interface {
 				if n.shut {
 					wgt = 0.05
 				}
+				// a restarted broker usually wants back what its previous incarnation served
+				var inherited []int
+				for _, o := range w.linger {
+					for k := 0; o.idx == n.idx && !o.crashed && k < w.nres; k++ {
+						if o.mgr.Owns(k) && !n.mgr.Owns(k) {
+							inherited = append(inherited, k)
+						}
+					}
+				}
+				if len(inherited) > 0 && !n.shut {
+					wgt = 2.5
+				}
 				add(wgt, func() {
 					opsLeft--
 					x := rng.Intn(100)
 					res := rng.Intn(w.nres)
 					switch {
+					case len(inherited) > 0 && x < 75:
+						w.startOp(n, "acquire", inherited[rng.Intn(len(inherited))])
 					case x < 55:
 						w.startOp(n, "acquire", res)
 					case x < 93:
@@ -2128,6 +2446,36 @@ func (w *c18World) sample(rng interface {
 						w.startOp(n, "release_all", 0)
 					}
 				})
+			}
+		}
+		// superseded incarnations wind down: Release / ReleaseAll / client close, never Acquire
+		for _, n := range w.linger {
+			n := n
+			if n.closed || n.crashed {
+				continue
+			}
+			if closesLeft > 0 && !n.shut {
+				add(0.05, func() { closesLeft--; w.closeClient(n) })
+			}
+			if opsLeft > 0 && w.running(n) < 2 {
+				var owned []int
+				for k := 0; k < w.nres; k++ {
+					if n.mgr.Owns(k) {
+						owned = append(owned, k)
+					}
+				}
+				if len(owned) > 0 {
+					add(1.0, func() {
+						opsLeft--
+						if !n.shut && rng.Intn(100) < 25 {
+							w.startOp(n, "release_all", 0)
+						} else {
+							w.startOp(n, "release", owned[rng.Intn(len(owned))])
+						}
+					})
+				} else if !n.shut {
+					add(0.3, func() { opsLeft--; w.startOp(n, "release_all", 0) })
+				}
 			}
 		}
 		for _, g := range w.allPending() {
@@ -2160,7 +2508,7 @@ func (w *c18World) sample(rng interface {
 			dead, ka, noticed, crashed := ls.serverDead, ls.hasKA, ls.noticed, ls.owner.crashed
 			w.mu.Unlock()
 			if !dead {
-				add(0.45, func() { w.expire(ls) })
+				add(expireW, func() { w.expire(ls) })
 			}
 			if ka && !noticed && !crashed {
 				if dead {
@@ -2198,14 +2546,15 @@ func (w *c18World) sample(rng interface {
 
 // ---------------------------------------------------------------------------
 
-const c18Rule = "real PartitionLeaseManager/GroupLeaseManager instances (3 broker ids, restarts) against one embedded etcd; every etcd request they issue (Grant, Txn, Delete, Revoke) is parked at a gate and released one at a time by the scheduler inside a synctest bubble, optionally failing before/after its effect; session loss is split into server-side expiry (harness revokes the lease) and client-side notice (harness closes the keep-alive channel). After EVERY step, once all manager goroutines are quiescent and a WithPrevKV watch on /kafscale/ has been synchronised (up to the response's header revision, or through a sentinel key after expiry/revoke): (a) violation if two brokers have Owns(r)==true and neither belief is excused; a belief is excused only while the etcd lease under which that broker's claim on r was written has expired on the server and the broker's keep-alive channel for it is still open (the window inherent to leases); if exactly one such firm believer exists while the etcd key is absent, one more broker P runs Acquire(r) and P succeeding is the same violation; (b) violation if a DELETE event of a lease key carries a previous value naming a broker other than the one whose Release/ReleaseAll/expiry step caused it. (c) per resource, the history of Acquire/Release/ReleaseAll calls (with results), expiry/notice/restart events and every Owns() observation is checked with porcupine against a lock model (a failing Acquire is always legal; Owns()==false gives the lock up; an expired-but-untold broker is excused). Scripted schedules (stale release, restart+reacquire, early notice, release racing own acquire, lost responses, and an acquire/reacquire txn whose response is held while the session it was made on is lost AND replaced through an Acquire of a second resource, before or after another broker takes the first …) for both flavours, then PRNG schedules; non-trivial = a resource was held by two different brokers over the case and a release/expiry/restart/close occurred"
+const c18Rule = "real PartitionLeaseManager/GroupLeaseManager instances (3 broker ids; restarts either as a crash of the old process or with the old incarnation still running: then up to three managers of ONE broker id, each with its own etcd session, overlap, the superseded ones winding down with late Release/ReleaseAll calls, parked requests that land late, late client close and late lease expiry, never a new Acquire) against one embedded etcd; every etcd request they issue (Grant, Txn, Delete, Revoke) is parked at a gate and released one at a time by the scheduler inside a synctest bubble, optionally failing before/after its effect; session loss is split into server-side expiry (harness revokes the lease) and client-side notice (harness closes the keep-alive channel). After EVERY step, once all manager goroutines are quiescent and a WithPrevKV watch on /kafscale/ has been synchronised (up to the response's header revision, or through a sentinel key after expiry/revoke): (a) violation if two brokers (different broker ids; P counts) have Owns(r)==true and neither belief is excused; audited are the current incarnation of every broker id and a superseded incarnation only for keys that no newer incarnation of its broker id has re-attached since; a belief is excused only while the etcd lease under which that broker's claim on r was written has expired on the server and the broker's keep-alive channel for it is still open (the window inherent to leases); if exactly one such firm believer exists while the etcd key is absent, one more broker P runs Acquire(r) and P succeeding is the same violation; (b) violation if a DELETE event of a lease key carries a previous value naming a broker other than the one whose Release/ReleaseAll/expiry step caused it. (c) per resource, the history of Acquire/Release/ReleaseAll calls (with results), expiry/notice/restart events and every Owns() observation is checked with porcupine against a lock model (a failing Acquire is always legal; Owns()==false gives the lock up; an expired-but-untold broker is excused). Scripted schedules (stale release, restart+reacquire, early notice, Release racing an Acquire of the same manager with the Acquire's requests first (also across a session rotation), restarts whose old incarnation releases / releases all / closes / expires only after the new incarnation re-attached the key, or has its Release request parked across the restart, three overlapping incarnations releasing out of order, lost responses, and an acquire/reacquire txn whose response is held while the session it was made on is lost AND replaced through an Acquire of a second resource, before or after another broker takes the first …) for both flavours, then PRNG schedules (one in three dwelling on restarts with a lingering old incarnation); non-trivial = a resource was held by two different brokers over the case and a release/expiry/restart/close occurred, or a key went from one incarnation of a broker id to the next and the old incarnation made a call afterwards"
 
 func TestVerifC18Sched(t *testing.T) {
 	r := verifkit.Start(t, "C18", "sched")
 	defer r.Finish(c18Rule,
 		"Lease.KeepAlive is replaced at the clientv3.Lease interface: the channel closes on ctx cancel, client close, or the scheduler's notice step; no keep-alive traffic (TTL 3600s outlives a case), so timing of the real lessor is not exercised",
 		"single-node embedded etcd; etcd requests are serialised by the scheduler (one in flight at a time), which is every interleaving at etcd-operation granularity but no overlapping server-side execution",
-		"a crashed/restarted instance's pending requests never reach etcd; two live managers never share a broker id",
+		"a crashed instance's pending requests never reach etcd; managers sharing a broker id exist only as successive incarnations of a restarted broker, and a superseded incarnation starts no new Acquire (none in flight at the restart either): the reacquire path hands a broker id's key to whichever incarnation asks last, so an old incarnation that kept acquiring is outside the statement",
+		"two incarnations of one broker id both answering Owns()==true is not counted as two brokers; a superseded incarnation's belief in a key that a newer incarnation has re-attached is not audited",
 		"beliefs held only because the server expired the session and the broker has not been told yet are not counted (no lease protocol can avoid them)")
 	e := newC18Env(t, r)
 	defer e.close()
@@ -2271,7 +2620,7 @@ func TestVerifC18Sched(t *testing.T) {
 // is a list of choice indices; each run re-executes the prefix against fresh managers.
 
 type c18EnumOp struct {
-	kind string // acquire | release | release_all | restart
+	kind string // acquire | release | release_all | restart | respawn (restart whose old incarnation keeps running)
 	res  int
 }
 
@@ -2292,9 +2641,11 @@ type c18EnumProg struct {
 	noticeAfterExpiry bool
 	// atomic: the broker's call runs to completion in ONE choice (its etcd requests are not interleaved)
 	atomic [3]bool
+	// old: calls (release | release_all) of the oldest superseded incarnation, available once a "respawn" happened
+	old []c18EnumOp
 }
 
-func (w *c18World) enumChoices(p *c18EnumProg, pc *[3]int, exp, noti *int) []func() {
+func (w *c18World) enumChoices(p *c18EnumProg, pc *[4]int, exp, noti *int) []func() {
 	var cs []func()
 	opsLeft := false
 	for i := range p.ops {
@@ -2308,6 +2659,10 @@ func (w *c18World) enumChoices(p *c18EnumProg, pc *[3]int, exp, noti *int) []fun
 		switch {
 		case op.kind == "restart":
 			cs = append(cs, func() { pc[i]++; w.restart(i) })
+		case op.kind == "respawn":
+			if w.acquiring(n) == 0 && (p.overlap[i] || w.running(n) == 0) {
+				cs = append(cs, func() { pc[i]++; w.respawn(i) })
+			}
 		case p.atomic[i]:
 			cs = append(cs, func() {
 				pc[i]++
@@ -2317,6 +2672,13 @@ func (w *c18World) enumChoices(p *c18EnumProg, pc *[3]int, exp, noti *int) []fun
 			})
 		case p.overlap[i] || w.running(n) == 0:
 			cs = append(cs, func() { pc[i]++; w.startOp(w.nodes[i], op.kind, op.res) })
+		}
+	}
+	if pc[3] < len(p.old) {
+		opsLeft = true
+		if len(w.linger) > 0 && w.running(w.linger[0]) == 0 {
+			op := p.old[pc[3]]
+			cs = append(cs, func() { pc[3]++; w.startOp(w.linger[0], op.kind, op.res) })
 		}
 	}
 	pend := w.allPending()
@@ -2372,6 +2734,18 @@ var c18EnumProgs = []struct {
 	{"thorough", c18EnumProg{name: "prefix[A:acq(r0),restart,acq(r0): reacquire txn committed, response held]|A:acq(r1)|B:acq(r0) atomic|2 expiries, then notice, of A's leases",
 		nres: 2, prefix: c18PrefixHeldReacquire, ops: [3][]c18EnumOp{{{"acquire", 1}}, {{"acquire", 0}}, nil},
 		overlap: [3]bool{true, false, false}, atomic: [3]bool{false, true, false}, expire: 2, notice: 1, prefixLeases: true, noticeAfterExpiry: true}},
+	// restart with the old incarnation still running: two managers (two etcd sessions) of broker id A overlap
+	{"quick", c18EnumProg{name: "A:acq,respawn,acq|old A:rel|B:acq atomic",
+		ops: [3][]c18EnumOp{{{"acquire", 0}, {"respawn", 0}, {"acquire", 0}}, {{"acquire", 0}}, nil}, old: []c18EnumOp{{"release", 0}}, atomic: [3]bool{false, true, false}}},
+	// Release overlapping Acquire on one manager
+	{"quick", c18EnumProg{name: "A:acq,(rel||acq)|B:acq atomic",
+		ops: [3][]c18EnumOp{{{"acquire", 0}, {"release", 0}, {"acquire", 0}}, {{"acquire", 0}}, nil}, overlap: [3]bool{true, false, false}, atomic: [3]bool{false, true, false}}},
+	{"thorough", c18EnumProg{name: "A:acq,respawn,acq,rel|old A:rel|B:acq atomic|1 expiry",
+		ops: [3][]c18EnumOp{{{"acquire", 0}, {"respawn", 0}, {"acquire", 0}, {"release", 0}}, {{"acquire", 0}}, nil}, old: []c18EnumOp{{"release", 0}}, atomic: [3]bool{false, true, false}, expire: 1}},
+	{"thorough", c18EnumProg{name: "A:acq(r0),acq(r1),respawn,acq(r0)|old A:relall|B:acq(r0) atomic", nres: 2,
+		ops: [3][]c18EnumOp{{{"acquire", 0}, {"acquire", 1}, {"respawn", 0}, {"acquire", 0}}, {{"acquire", 0}}, nil}, old: []c18EnumOp{{"release_all", 0}}, atomic: [3]bool{false, true, false}}},
+	{"thorough", c18EnumProg{name: "A:acq,(rel in flight||respawn),acq|B:acq atomic",
+		ops: [3][]c18EnumOp{{{"acquire", 0}, {"release", 0}, {"respawn", 0}, {"acquire", 0}}, {{"acquire", 0}}, nil}, overlap: [3]bool{true, false, false}, atomic: [3]bool{false, true, false}}},
 }
 
 // c18PrefixHeldAcquire: A's create-if-absent txn for r0 has committed under A's first session; its response is parked.
@@ -2391,7 +2765,7 @@ func c18PrefixHeldReacquire(s *c18Driver) {
 	s.next(cA, "txn", c18OKDelayed)
 }
 
-const c18EnumRule = "for each listed small program (per-broker call sequences over one resource, budgets of server-side expiries / notices), EVERY schedule — which broker starts its next call, which parked etcd request is executed next, where the expiry/notice is placed — is executed against fresh real managers by stateless depth-first search (a schedule = list of choice indices, re-executed from the start); a program may have a fixed prefix (e.g. A's acquire txn of r0 committed, its response parked) after which every continuation is enumerated over two resources: A's acquire of r1 step by step, B's acquire of r0 as one step, delivery of the parked response, expiry and notice of the prefix's lease(s); oracles (a) (b) (c) of the sched leg run after every step; exhaustive=true when every program's tree was exhausted within the tier's cap"
+const c18EnumRule = "for each listed small program (per-broker call sequences over one resource, budgets of server-side expiries / notices), EVERY schedule — which broker starts its next call, which parked etcd request is executed next, where the expiry/notice is placed — is executed against fresh real managers by stateless depth-first search (a schedule = list of choice indices, re-executed from the start); a program may contain a restart that leaves the old incarnation running (respawn: two managers of broker id A overlap, the old one then issues its listed Release/ReleaseAll calls) and calls of one manager that overlap (Release || Acquire); a program may have a fixed prefix (e.g. A's acquire txn of r0 committed, its response parked) after which every continuation is enumerated over two resources: A's acquire of r1 step by step, B's acquire of r0 as one step, delivery of the parked response, expiry and notice of the prefix's lease(s); oracles (a) (b) (c) of the sched leg run after every step; exhaustive=true when every program's tree was exhausted within the tier's cap"
 
 func TestVerifC18Enum(t *testing.T) {
 	r := verifkit.Start(t, "C18", "enum")
@@ -2408,7 +2782,7 @@ func TestVerifC18Enum(t *testing.T) {
 		}
 		p := ep.p
 		for _, fl := range []string{"partition", "group"} {
-			if fl == "group" && (!r.Thorough() || p.expire+p.notice > 1 || strings.Contains(p.name, "restart") || p.delayed || p.prefix != nil) {
+			if fl == "group" && (!r.Thorough() || p.expire+p.notice > 1 || strings.Contains(p.name, "restart") || strings.Contains(p.name, "respawn") || p.delayed || p.prefix != nil) {
 				continue // same LeaseManager code behind a different prefix: the big trees are enumerated for one flavour
 			}
 			var path []int
@@ -2423,7 +2797,7 @@ func TestVerifC18Enum(t *testing.T) {
 					}
 					w := e.newWorld(fl, "enum:"+p.name, nres)
 					defer w.cleanup()
-					var pc [3]int
+					var pc [4]int
 					exp, noti := p.expire, p.notice
 					if p.prefix != nil {
 						p.prefix(&c18Driver{w})
